@@ -395,7 +395,19 @@ func (w *World) VerifShape() string {
 		}
 	}
 	fmt.Fprintf(&sb, "locks=%v issued=%d returned=%d\n", bits, w.locks.bitPool.length, w.locks.bitPool.available)
-	fmt.Fprintf(&sb, "registry=%d resources=%d\n", w.registry.Count(), w.resources.registry.Count())
+	fmt.Fprintf(&sb, "registry=%d resources=%d used=%d relations=%d ids=%v\n", w.registry.Count(), w.resources.registry.Count(),
+		w.registry.Used.TotalBitsSet(), w.registry.IsRelation.TotalBitsSet(), w.registry.IDs)
+	for k := 0; k < MaskTotalBits; k++ {
+		i := id(uint8(k))
+		if w.registry.Used.Get(i) || w.registry.IsRelation.Get(i) || w.registry.Types[k] != nil {
+			fmt.Fprintf(&sb, " type %d: %v used=%t relation=%t\n", k, w.registry.Types[k], w.registry.Used.Get(i), w.registry.IsRelation.Get(i))
+		}
+	}
+	for k := 0; k < MaskTotalBits; k++ {
+		if w.resources.resources[k] != nil {
+			fmt.Fprintf(&sb, " resource %d present\n", k)
+		}
+	}
 	return sb.String()
 }
 
